@@ -1892,8 +1892,10 @@ class Interp:
                     return True
             return False
         if isinstance(c, SetV):
+            self.w.B.check_hashable(x)          # `x in a_set` / `x in a_dict` hash x first: TypeError for an unhashable x, even when the container is empty
             return any(i is x or self.heq(i, x) for i in c.items)
         if isinstance(c, DictV):
+            self.w.B.check_hashable(x)
             return any(k is x or self.heq(k, x) for k, _ in c.pairs)
         if isinstance(c, ProxyV):
             return self.contains(c.d, x)
@@ -2127,8 +2129,34 @@ class Interp:
         return Seq(out, "list")
 
     def ex_GeneratorExp(self, e, fr):
-        s = self.ex_ListComp(e, fr)
-        return IterV(s.items) if not s.has_seg() else s
+        """A generator expression is a generator: its first iterable is evaluated at once, everything else when the consumer asks for
+        the next element (a consumer that stops early never evaluates the rest; one that changes state between two elements sees the
+        change).  Evaluated as the generator function CPython compiles it to.  Over a list with an opaque segment (inductive
+        harnesses only) the eager evaluation through the generic element is kept."""
+        if any(g.is_async for g in e.generators):
+            raise Unknown("async comprehension")
+        if any(isinstance(n, ast.NamedExpr) for n in ast.walk(e)):
+            s = self.ex_ListComp(e, fr)         # a walrus inside binds in the enclosing scope: evaluated eagerly
+            return IterV(s.items) if not s.has_seg() else s
+        src = self.ev(e.generators[0].iter, fr)
+        if isinstance(src, Seq) and src.has_seg():
+            s = self.ex_ListComp(e, fr)
+            return IterV(s.items) if not s.has_seg() else s
+        node = getattr(e, "_verif_genfunc", None)
+        if node is None:
+            body = ast.Expr(value=ast.Yield(value=e.elt))
+            for i in range(len(e.generators) - 1, -1, -1):
+                g = e.generators[i]
+                inner = body
+                if g.ifs:
+                    inner = ast.If(test=g.ifs[0] if len(g.ifs) == 1 else ast.BoolOp(op=ast.And(), values=list(g.ifs)), body=[inner], orelse=[])
+                body = ast.For(target=g.target, iter=ast.Name(id="_verif_genexp_source", ctx=ast.Load()) if i == 0 else g.iter, body=[inner], orelse=[])
+            node = ast.FunctionDef(name="<genexpr>", args=ast.arguments(posonlyargs=[], args=[ast.arg(arg="_verif_genexp_source")], vararg=None, kwonlyargs=[], kw_defaults=[], kwarg=None, defaults=[]),
+                                   body=[body], decorator_list=[], returns=None, type_params=[])
+            ast.copy_location(node, e)
+            ast.fix_missing_locations(node)
+            e._verif_genfunc = node
+        return self.call(self.make_func(node, fr, "<genexpr>"), [src], {})
 
     def ex_SetComp(self, e, fr):
         out = []
